@@ -95,7 +95,7 @@ def _index(rng, fl):
 def _prior(rng, kind=None, named=None):
     from holopy.core.prior import Uniform, Gaussian, BoundedGaussian, ComplexPrior, TransformedPrior
     kind = kind or ["U", "G", "BG", "Uinf"][int(rng.integers(0, 4))]
-    nm = named if named is not None else [None, "a", "my name"][int(rng.integers(0, 3))]
+    nm = named if named is not None else [None, "a", "my name", np.array(["radius"])[0], np.str_("n_p")][int(rng.integers(0, 5))]
     lo = float(rng.uniform(0.1, 1.0))
     if kind == "U":
         g = None if rng.random() < 0.5 else lo + 0.1
@@ -228,9 +228,9 @@ def _make(what, rng, fl):
     if what == "LeastSquaresScipyStrategy":
         return LeastSquaresScipyStrategy(ftol=1e-9, xtol=1e-8, gtol=1e-7, max_nfev=None if none else N(integer=True), npixels=None if none else N(integer=True))
     if what == "CmaStrategy":
-        return CmaStrategy(npixels=None if none else N(integer=True), resample_pixels=bool(rng.integers(0, 2)), parent_fraction=0.3, weight_function=None,
-                           max_iter=N(integer=True), tols={"maxiter": 5} if rng.random() < 0.5 else {}, seed=None if none else N(integer=True), parallel=None if none else "auto") \
-            if False else CmaStrategy(npixels=None if none else N(integer=True), seed=None if none else N(integer=True), parallel=None if none else "auto")
+        return CmaStrategy(npixels=None if none else N(integer=True), popsize=None if rng.random() < 0.5 else int(rng.integers(4, 20)),
+                           resample_pixels=bool(rng.integers(0, 2)), parent_fraction=[0.25, 0.3, 0.5][int(rng.integers(0, 3))],
+                           tols={"maxiter": 5} if rng.random() < 0.5 else {}, seed=None if none else N(integer=True), parallel=None if none else "auto")
     if what == "EmceeStrategy":
         return EmceeStrategy(nwalkers=N(integer=True), nsamples=N(integer=True), npixels=None if none else N(integer=True), walker_initial_pos=None,
                              parallel=None if none else "auto", seed=None if none else N(integer=True))
@@ -287,8 +287,15 @@ def _make(what, rng, fl):
             s1 = Spheres([s1, Sphere(n=1.5, r=p, center=[4.0, 4.0, 9.0])], warn=False)
             kw["constraints"] = [LimitOverlaps(0.2)]
         if what == "AlphaModel":
+            if rng.random() < 0.3:
+                # rigid cluster whose orientation and position are fitted
+                rcl = RigidCluster(Spheres([Sphere(n=1.5, r=0.5, center=[0.0, 0.0, 0.0]), Sphere(n=1.5, r=0.5, center=[1.2, 0.0, 0.0])], warn=False),
+                                   rotation=[0.0, _prior(rng, "U"), [0.0, _prior(rng, "U")][int(rng.integers(0, 2))]], translation=[1.0, 2.0, _prior(rng, "U")])
+                kw.pop("constraints", None)
+                return AlphaModel(rcl, alpha=_prior(rng, "U"), **kw)
             return AlphaModel(s1, alpha=[_prior(rng, "U"), 0.8][int(rng.integers(0, 2))], **kw)
-        return ExactModel(s1, **kw)
+        from holopy.scattering import calc_holo, calc_intensity, calc_field
+        return ExactModel(s1, calc_func=[calc_holo, calc_intensity, calc_field][int(rng.integers(0, 3))], **kw)
     raise ValueError(what)
 
 
@@ -303,6 +310,8 @@ def _norm(v, depth=0):
     from holopy.core.holopy_object import HoloPyObject
     if depth > 12:
         return "<deep>"
+    if isinstance(v, np.str_):
+        return str(v)          # a numpy string is the same value as the plain string it is saved as
     if v is None or isinstance(v, (bool, str)):
         return v
     if isinstance(v, (np.bool_,)):
@@ -313,6 +322,10 @@ def _norm(v, depth=0):
         return float(v)
     if isinstance(v, (complex, np.complexfloating)):
         return complex(v)
+    if isinstance(v, xr.DataArray):
+        # labelled array: dimension names, labels and (normalised) values
+        return {"__dataarray__": list(map(str, v.dims)), "coords": {str(d): _norm(v[d].values, depth + 1) for d in v.dims},
+                "values": _norm(v.values, depth + 1)}
     if isinstance(v, np.ndarray):
         return [_norm(x, depth + 1) for x in v.tolist()]
     if isinstance(v, (list, tuple)):
@@ -517,6 +530,8 @@ def run_case(case):
                     pass
             if hasattr(obj, "alpha"):
                 flags["model_alpha"] = bool(_diff(_norm(obj.alpha), _norm(cur.alpha)) is None)
+            if hasattr(obj, "calc_func"):
+                flags["model_calc_func"] = bool(cur.calc_func is obj.calc_func)
     finally:
         shutil.rmtree(td, ignore_errors=True)
     return {"resid": {}, "flags": flags, "witness": witness[:4], "nargs": len(a0) if a0 else 1, "text": texts[0][:300]}
